@@ -154,7 +154,30 @@ def run(shard, rec):
         return [await mpc.output(y), await mpc.output(b), await mpc.output(last), await mpc.output(z), await mpc.output(s)]
     exp_alias = [[v * v for v in vals][::-1], [(vals[0] >> i) & 1 for i in range(4)][::-1][:-1], vals[0] & 1, [2 * vals[1], 2 * vals[0]] + [2 * v for v in vals[2:]], sorted(vals)[1:]]
     sw_prog, sw_exp = _progs.threshold_switch_program(tuple(vals))
-    for name, prog, exp in (('result-list-mutation', alias_program, exp_alias), ('threshold-switch', sw_prog, sw_exp)):
+    late = rng.randrange(m)
+
+    async def p2p_program(mpc, pid):
+        # point-to-point and subset forms of transfer/input/output; one party reaches each call late, so that what is sent to it has already arrived
+        # (the other parties see the opposite order): the outcome is the same as under any other timing
+        import asyncio as _aio
+        secint = mpc.SecInt(16)
+        res = []
+        mm = len(mpc.parties)
+        for rnd in range(3):
+            a, b = rnd % mm, (rnd + 1) % mm
+            if pid == (late + rnd) % mm:
+                for _ in range(4 + 3 * rnd):
+                    await _aio.sleep(0)
+            r1 = await mpc.transfer(('msg', rnd, pid), senders=a, receivers=b)
+            r2 = await mpc.transfer(('all', rnd, pid), senders=a)
+            x = mpc.input(secint(vals[rnd] + pid), senders=b)
+            r3 = await mpc.output(x * x, receivers=a)
+            r4 = await mpc.transfer(('sub', rnd, pid), senders=[a, b], receivers=[b])
+            res.append([r1 if pid == b else None, r2, r3 if pid == a else None, r4 if pid == b else None])
+        return res
+    exp_p2p_for = lambda pid: [[('msg', r, r % m) if pid == (r + 1) % m else None, ('all', r, r % m), (vals[r] + (r + 1) % m) ** 2 if pid == r % m else None,
+                                [('sub', r, r % m), ('sub', r, (r + 1) % m)] if pid == (r + 1) % m else None] for r in range(3)]
+    for name, prog, exp in (('result-list-mutation', alias_program, exp_alias), ('threshold-switch', sw_prog, sw_exp), ('point-to-point', p2p_program, None)):
         for policy in sim.POLICIES:
             sseed = rng.randrange(1 << 30)
             case = [shard['name'], name, policy, sseed]
@@ -168,6 +191,13 @@ def run(shard, rec):
             res = w.ok_results()
             if res is not None:
                 for pid, r in enumerate(res):
+                    if name == 'point-to-point':
+                        exp = exp_p2p_for(pid)
+                        norm = lambda v: [norm(x) for x in v] if isinstance(v, (list, tuple)) else v
+                        if norm(r) != norm(exp):
+                            problems.append(('wrong-output', f'party {pid} obtained {r}, expected {exp}'))
+                            break
+                        continue
                     rr = [[float(x) if isinstance(x, float) else x for x in part] if isinstance(part, list) else part for part in r]
                     if rr != exp and not (name == 'threshold-switch' and _close_nested(rr, exp)):
                         problems.append(('wrong-output', f'party {pid} obtained {rr}, expected {exp}'))
